@@ -80,7 +80,7 @@ MD_ATOMS = ["|", "|", "|", " | ", "\\|", "\\", "#", "-", "--", " ", "  ", "\t", 
             "type", "name", "label", "x y", NBSP, "\r", "é", "Survey", "notes", "| |", "||", "settings"]
 HDR_ATOMS = [None, None, "", " ", "  ", "a", "b", " a", "a ", "a  b", "a b", NBSP + "c", "type", "name", "label::en", "\t", "d\te"]
 CELL_VALUES = [None, None, "", " ", "x", " x ", NBSP + "x" + NBSP, "A" + NBSP + "B", "1", "TRUE", True, False, 0, 1, -7, 42, 10**12,
-               0.0, 1.0, -3.0, 1.5, 0.1, -2.75, 1e16, 1e22, 123456789.125, 3.14159, 1e-7, "\n", "a\nb", "  a  b  ", "\t"]
+               0.0, 1.0, -3.0, 1.5, 0.1, -2.75, 1e16, 1e22, 123456789.125, 3.14159, 1e-7, 3.141592653589793, 1 / 3, 0.1 + 0.2, -33.86785123456789, 2 ** 0.5, "\n", "a\nb", "  a  b  ", "\t"]
 
 
 def rand_text(rng: random.Random, atoms, n_max: int) -> str:
@@ -284,7 +284,7 @@ def get_xlsform_case(ctx, kind: str, text: str, channel: str, file_type, stem: s
             py = {"outcome": type(e).__name__}
     finally:
         cleanup()
-    lean = ctx.driver.call("be.get_xlsform", text=text, channel="path" if gives else channel, stem=stem,
+    lean = ctx.driver.call("be.get_xlsform", text=text, channel="path" if gives else channel.split("_")[0], stem=stem,
                            suffix=C.EXT[kind], file_type=file_type)
     if lean["outcome"] == "unsupported":
         ctx.count("fn:get_xlsform:unsupported")
@@ -307,7 +307,7 @@ def explore_fn(ctx, rng: random.Random, n: int, scratch):
         text_to_dict_case(ctx, "csv", m)
         rows = [[rand_text(rng, CSV_ATOMS, 4) for _ in range(rng.randint(0, 4))] for _ in range(rng.randint(0, 4))]
         csv_write_case(ctx, rows)
-        cell_text_case(ctx, [rng.choice(CELL_VALUES) for _ in range(8)] + [rng.randint(-10**6, 10**6), rng.randint(-50, 50) / 4, float(rng.randint(-99, 99))])
+        cell_text_case(ctx, [rng.choice(CELL_VALUES) for _ in range(8)] + [rng.randint(-10**6, 10**6), rng.randint(-50, 50) / 4, float(rng.randint(-99, 99)), rng.random(), rng.uniform(-1e6, 1e6), 1 / rng.randint(3, 999)])
         grid_case(ctx, *rand_grid(rng))
         if rng.random() < 0.15:
             kind, text = rng.choice([("md", m), ("csv", t)])
